@@ -27,6 +27,31 @@ LayoutOK(kids, n, gap) == Existing(kids, n) /\ Ordered(kids) /\ Contiguous(kids,
 (* its rows is one of the viewport's rows.                                  *)
 Visible(kids, sel, H) == \E j \in 1..Len(kids) : kids[j].i = sel /\ kids[j].row < H /\ kids[j].row + kids[j].h > 0
 
+(* WHEN the index must be in range.  The classic list is handed its items:  *)
+(* always.  The builder-driven list asks an application function for item   *)
+(* i and is told neither the item count nor that items went away; the only  *)
+(* moment it can learn either is when it next lays the items out.  An index *)
+(* left beyond the items by an item replacement, or put there by a          *)
+(* set-cursor beyond the last item, is therefore tolerated until the next   *)
+(* draw (cause = the operation that put it there, "" = none), and from that *)
+(* draw on it must be in range again.  Any other operation must keep an     *)
+(* index that is in range in range.                                         *)
+LearnsAtDraw(op) == op \in {"replace", "setcursorabs"}
+CauseAfter(cause, op, n, sel) ==
+  IF InRange(n, sel) THEN "" ELSE IF LearnsAtDraw(op) THEN op ELSE cause
+OpRangeOK(cause, op, n, sel) == InRange(n, sel) \/ CauseAfter(cause, op, n, sel) # ""
+
+(* WHEN the selected item must be shown.  "After a selection change         *)
+(* followed by a draw show the selected item inside the viewport": the draw *)
+(* that follows a selection change (selchg) shows it, and so does every     *)
+(* further draw of the same viewport with no operation at all in between    *)
+(* (the same list drawn again: nothing scrolled it away).  follow = the     *)
+(* viewport <<W, H>> of such an unbroken run of draws, <<>> = none.  An     *)
+(* empty list or a viewport without rows can show nothing.                  *)
+MustShow(selchg, follow, W, H, n) == (selchg \/ follow = <<W, H>>) /\ n > 0 /\ H > 0
+FollowAfterDraw(selchg, follow, W, H, n) == IF MustShow(selchg, follow, W, H, n) THEN <<W, H>> ELSE <<>>
+ShowWhy(selchg) == IF selchg THEN "selected-not-visible" ELSE "selected-lost-on-redraw"
+
 (* First failing clause, for the rejection signature.                       *)
 LayoutWhy(kids, n, gap) ==
   IF ~Existing(kids, n) THEN "nonexistent-item"
